@@ -717,6 +717,17 @@ impl Drop for VerifPoolRelease {
     }
 }
 
+impl WriteConn {
+    /// Close this connection instead of handing it back to the pool (which opens a new one
+    /// on demand). For a connection whose state can no longer be trusted, e.g. after a
+    /// rolled back schema change: cr-sqlite keeps table metadata per connection and does
+    /// not roll it back with the transaction.
+    pub fn discard(self) {
+        let WriteConn { conn, .. } = self;
+        drop(sqlite_pool::Connection::take(conn));
+    }
+}
+
 impl Deref for WriteConn {
     type Target = sqlite_pool::Connection<CrConn>;
 
